@@ -8,11 +8,22 @@ import "regexp"
 // for everything the request path reads through the getters; removed servers are closed.
 
 var ghostClosed int
+var ghostClosedAddrs []string
 
 //verif:hook (*github.com/vicanso/pike/server.server).Close
 func verifHook_serverClose(s *server) error {
 	ghostClosed++
+	ghostClosedAddrs = append(ghostClosedAddrs, s.addr)
 	return nil
+}
+
+func c16Closed(addr string) bool {
+	for _, a := range ghostClosedAddrs {
+		if a == addr {
+			return true
+		}
+	}
+	return false
 }
 
 var c16Filter = regexp.MustCompile(`text`)
@@ -74,6 +85,7 @@ func Harness_C16_servers_reset() {
 	}
 	live := NewServers(cfg1)
 	ghostClosed = 0
+	ghostClosedAddrs = nil
 	live.Reset(cfg2)
 	verifRunSpawned()
 	fresh := NewServers(cfg2)
@@ -93,6 +105,9 @@ func Harness_C16_servers_reset() {
 		if in1 && !in2 {
 			removed++
 		}
+		// every removed server stops listening (each one, not just as many closes as removals);
+		// a server that stays configured is not closed
+		verifAssert("C16.servers.each-removed-server-is-closed", c16Closed(a) == (in1 && !in2))
 		verifAssert("C16.servers.registry-equals-fresh", c16SameServer(live.Get(a), fresh.Get(a)))
 	}
 	verifAssert("C16.servers.removed-are-closed", ghostClosed == removed)
